@@ -45,18 +45,57 @@ def _norm(sql):
     return " ".join(sql.split())
 
 
+import re as _re
+
+_SCHEMA = {
+    # table: (columns, primary key column, rowid-alias (INTEGER PRIMARY KEY), autoincrement, unique columns)
+    "local_files": (["path", "size", "mtime", "ctime", "fileid"], "path", False, False, []),
+    "caps": (["fileid", "filecap"], "fileid", True, True, ["filecap"]),
+    "last_upload": (["fileid", "last_uploaded", "last_checked"], "fileid", True, False, []),
+    "directories": (["dirhash", "dircap", "last_uploaded", "last_checked"], "dirhash", False, False, []),
+}
+
+
 class FakeDB(object):
-    """connection and cursor in one"""
+    """
+    connection and cursor in one: a small in-memory engine for the SQL subset backupdb.py uses
+    (INSERT [OR IGNORE|OR REPLACE] / REPLACE / UPDATE..WHERE c=? / DELETE..WHERE c=? / SELECT cols FROM t[,t2] WHERE c=? [AND c2=?]),
+    with sqlite's constraint behaviour (PRIMARY KEY / UNIQUE conflicts raise IntegrityError, INTEGER PRIMARY KEY is the rowid and is
+    assigned max+1 when omitted) and sqlite's lastrowid semantics (set by a successful INSERT/REPLACE, untouched by an ignored one).
+    """
 
     def __init__(self):
-        self.local_files = {}     # path -> [size, mtime, ctime, fileid]
-        self.caps = {}            # fileid -> filecap (UNIQUE)
-        self.last_upload = {}     # fileid -> [last_uploaded, last_checked]
-        self.directories = {}     # dirhash -> [dircap, last_uploaded, last_checked]
+        self.rows = dict((t, []) for t in _SCHEMA)      # table -> list of {"_rowid": n, col: value}
         self.commits = 0
-        self.res = None
+        self.res = []
         self.dirty = False
+        self.lastrowid = 0
+        self.rowcount = -1
 
+    # ---- convenient views used by the oracles -------------------------------------------------
+    @property
+    def local_files(self):
+        return dict((r["path"], [r["size"], r["mtime"], r["ctime"], r["fileid"]]) for r in self.rows["local_files"])
+
+    @property
+    def caps(self):
+        return dict((r["fileid"], r["filecap"]) for r in self.rows["caps"])
+
+    @property
+    def last_upload(self):
+        return dict((r["fileid"], [r["last_uploaded"], r["last_checked"]]) for r in self.rows["last_upload"])
+
+    @property
+    def directories(self):
+        return dict((r["dirhash"], [r["dircap"], r["last_uploaded"], r["last_checked"]]) for r in self.rows["directories"])
+
+    def put(self, table, **vals):
+        """test set-up: store a row directly"""
+        cols = _SCHEMA[table][0]
+        row = dict((c, vals.get(c)) for c in cols)
+        self._store(table, row, "abort")
+
+    # ---- DB-API surface --------------------------------------------------------------------------
     def cursor(self):
         return self
 
@@ -65,67 +104,121 @@ class FakeDB(object):
         self.dirty = False
 
     def fetchone(self):
-        r, self.res = self.res, None
+        if self.res:
+            return self.res.pop(0)
+        return None
+
+    def fetchall(self):
+        r, self.res = self.res, []
         return r
+
+    def _next_rowid(self, table):
+        m = 0
+        for r in self.rows[table]:
+            if r["_rowid"] > m:
+                m = r["_rowid"]
+        return m + 1
+
+    def _store(self, table, row, on_conflict):
+        (cols, pk, alias, _auto, uniques) = _SCHEMA[table]
+        if alias and row.get(pk) is None:
+            row[pk] = self._next_rowid(table)
+        clash = []
+        for r in self.rows[table]:
+            for c in [pk] + list(uniques):
+                if r[c] == row[c]:
+                    clash.append(r)
+                    break
+        if clash:
+            if on_conflict == "ignore":
+                self.rowcount = 0
+                return False
+            if on_conflict == "abort":
+                raise IntegrityError("UNIQUE constraint failed: %s" % table)
+            for r in clash:
+                self.rows[table].remove(r)
+        row["_rowid"] = row[pk] if alias else self._next_rowid(table)
+        self.rows[table].append(row)
+        self.lastrowid = row["_rowid"]
+        self.rowcount = 1
+        self.dirty = True
+        return True
 
     def execute(self, sql, params=()):
         q = _norm(sql)
-        p = tuple(params)
-        self.res = None
-        if q == "SELECT size,mtime,ctime,fileid FROM local_files WHERE path=?":
-            row = self.local_files.get(p[0])
-            self.res = tuple(row) if row is not None else None
-        elif q == "SELECT caps.filecap, last_upload.last_checked FROM caps,last_upload WHERE caps.fileid=? AND last_upload.fileid=?":
-            if p[0] in self.caps and p[1] in self.last_upload:
-                self.res = (self.caps[p[0]], self.last_upload[p[1]][1])
-        elif q == "DELETE FROM local_files WHERE path=?":
-            self.local_files.pop(p[0], None)
+        p = list(params)
+        self.res = []
+        m = _re.match(r"^(INSERT(?: OR (IGNORE|REPLACE))?|REPLACE) INTO (\w+)(?: ?\(([^)]*)\))? VALUES ?\(([?, ]*)\)$", q, _re.I)
+        if m:
+            verb, orx, table, collist = m.group(1).upper(), (m.group(2) or "").upper(), m.group(3), m.group(4)
+            if table not in _SCHEMA:
+                raise hlib.HarnessError("unknown table in %r" % q)
+            cols = [c.strip() for c in collist.split(",")] if collist else list(_SCHEMA[table][0])
+            if len(cols) != len(p) or m.group(5).count("?") != len(p):
+                raise OperationalError("%d values for %d columns" % (len(p), len(cols)))
+            row = dict((c, None) for c in _SCHEMA[table][0])
+            for (c, v) in zip(cols, p):
+                if c not in row:
+                    raise OperationalError("no such column: %s" % c)
+                row[c] = v
+            mode = "replace" if (verb == "REPLACE" or orx == "REPLACE") else ("ignore" if orx == "IGNORE" else "abort")
+            self._store(table, row, mode)
+            return self
+        m = _re.match(r"^UPDATE (\w+) SET (.+?) WHERE (\w+) ?= ?\?$", q, _re.I)
+        if m:
+            table, sets, wc = m.group(1), [x.strip() for x in m.group(2).split(",")], m.group(3)
+            setcols = []
+            for x in sets:
+                mm = _re.match(r"^(\w+) ?= ?\?$", x)
+                if not mm:
+                    raise hlib.HarnessError("SQL not modelled: %r" % q)
+                setcols.append(mm.group(1))
+            if table not in _SCHEMA or len(p) != len(setcols) + 1:
+                raise hlib.HarnessError("SQL not modelled: %r" % q)
+            n = 0
+            for r in self.rows[table]:
+                if r[wc] == p[-1]:
+                    for (c, v) in zip(setcols, p[:-1]):
+                        r[c] = v
+                    n += 1
+            self.rowcount = n
             self.dirty = True
-        elif q == "INSERT INTO caps (filecap) VALUES (?)":
-            for fid in self.caps:
-                if self.caps[fid] == p[0]:
-                    raise IntegrityError("UNIQUE constraint failed: caps.filecap")
-            self.caps[max(list(self.caps.keys()) + [0]) + 1] = p[0]
+            return self
+        m = _re.match(r"^DELETE FROM (\w+) WHERE (\w+) ?= ?\?$", q, _re.I)
+        if m:
+            table, wc = m.group(1), m.group(2)
+            keep = [r for r in self.rows[table] if not (r[wc] == p[0])]
+            self.rowcount = len(self.rows[table]) - len(keep)
+            self.rows[table] = keep
             self.dirty = True
-        elif q == "SELECT fileid FROM caps WHERE filecap=?":
-            for fid in self.caps:
-                if self.caps[fid] == p[0]:
-                    self.res = (fid,)
-        elif q == "INSERT INTO last_upload VALUES (?,?,?)":
-            if p[0] in self.last_upload:
-                raise IntegrityError("UNIQUE constraint failed: last_upload.fileid")
-            self.last_upload[p[0]] = [p[1], p[2]]
-            self.dirty = True
-        elif q == "UPDATE last_upload SET last_uploaded=?, last_checked=? WHERE fileid=?":
-            if p[2] in self.last_upload:
-                self.last_upload[p[2]] = [p[0], p[1]]
-            self.dirty = True
-        elif q == "INSERT INTO local_files VALUES (?,?,?,?,?)":
-            if p[0] in self.local_files:
-                raise IntegrityError("UNIQUE constraint failed: local_files.path")
-            self.local_files[p[0]] = [p[1], p[2], p[3], p[4]]
-            self.dirty = True
-        elif q == "UPDATE local_files SET size=?, mtime=?, ctime=?, fileid=? WHERE path=?":
-            if p[4] in self.local_files:
-                self.local_files[p[4]] = [p[0], p[1], p[2], p[3]]
-            self.dirty = True
-        elif q == "UPDATE last_upload SET last_checked=? WHERE fileid=?":
-            if p[1] in self.last_upload:
-                self.last_upload[p[1]][1] = p[0]
-            self.dirty = True
-        elif q == "SELECT dircap, last_checked FROM directories WHERE dirhash=?":
-            row = self.directories.get(p[0])
-            self.res = (row[0], row[2]) if row is not None else None
-        elif q == "REPLACE INTO directories VALUES (?,?,?,?)":
-            self.directories[p[0]] = [p[1], p[2], p[3]]
-            self.dirty = True
-        elif q == "UPDATE directories SET last_checked=? WHERE dircap=?":
-            for k in self.directories:
-                if self.directories[k][0] == p[1]:
-                    self.directories[k][2] = p[0]
-            self.dirty = True
-        else:
-            raise hlib.HarnessError("SQL statement not modelled: %r" % (q,))
+            return self
+        m = _re.match(r"^SELECT (.+?) FROM (\w+)(?: ?, ?(\w+))? WHERE ([\w.]+) ?= ?\?(?: AND ([\w.]+) ?= ?\?)?$", q, _re.I)
+        if m:
+            cols = [c.strip() for c in m.group(1).split(",")]
+            t1, t2, w1, w2 = m.group(2), m.group(3), m.group(4), m.group(5)
+
+            def split(c, default):
+                return (c.split(".", 1) if "." in c else [default, c])
+            if t2 is None:
+                if w2 is not None:
+                    raise hlib.HarnessError("SQL not modelled: %r" % q)
+                wc = split(w1, t1)[1]
+                for r in self.rows[t1]:
+                    if r[wc] == p[0]:
+                        self.res.append(tuple(r[split(c, t1)[1]] for c in cols))
+            else:
+                if w2 is None:
+                    raise hlib.HarnessError("SQL not modelled: %r" % q)
+                (ta, ca), (tb, cb) = split(w1, t1), split(w2, t2)
+                for ra in self.rows[ta]:
+                    if not (ra[ca] == p[0]):
+                        continue
+                    for rb in self.rows[tb]:
+                        if rb[cb] == p[1]:
+                            both = {ta: ra, tb: rb}
+                            self.res.append(tuple(both[split(c, t1)[0]][split(c, t1)[1]] for c in cols))
+            return self
+        raise hlib.HarnessError("SQL statement not modelled: %r" % (q,))
 
 
 class _Env(object):
@@ -182,23 +275,24 @@ def _want_should_check(age, draw):
 
 def _db_state(has_row, s_size, s_mtime, s_ctime, fid, has_cap, has_lu, last_checked, other_row):
     db = FakeDB()
-    if has_cap:
-        db.caps[fid] = CAPS[fid - 1]
-    if has_lu:
-        db.last_upload[fid] = [last_checked - 5, last_checked]
-    if has_row:
-        db.local_files[PATH_A] = [s_size, s_mtime, s_ctime, fid]
     if other_row:
         # another path, uploaded to cap-three (fileid 3), must never be disturbed
-        db.caps[3] = CAPS[2]
-        db.last_upload[3] = [7, 7]
-        db.local_files[PATH_B] = [s_size, s_mtime, s_ctime, 3]
+        db.put("caps", fileid=3, filecap=CAPS[2])
+        db.put("last_upload", fileid=3, last_uploaded=7, last_checked=7)
+        db.put("local_files", path=PATH_B, size=s_size, mtime=s_mtime, ctime=s_ctime, fileid=3)
+    if has_cap:
+        db.put("caps", fileid=fid, filecap=CAPS[fid - 1])
+    if has_lu:
+        db.put("last_upload", fileid=fid, last_uploaded=last_checked - 5, last_checked=last_checked)
+    if has_row:
+        db.put("local_files", path=PATH_A, size=s_size, mtime=s_mtime, ctime=s_ctime, fileid=fid)
+    db.dirty = False
+    db.lastrowid = 0
     return db
 
 
 def _snapshot(db):
-    return (dict((k, list(v)) for (k, v) in db.local_files.items()), dict(db.caps),
-            dict((k, list(v)) for (k, v) in db.last_upload.items()), dict((k, list(v)) for (k, v) in db.directories.items()))
+    return (db.local_files, db.caps, db.last_upload, db.directories)
 
 
 def h_check_file(has_row: bool, s_size: int, s_mtime: int, s_ctime: int, has_cap: bool, has_lu: bool,
@@ -424,4 +518,73 @@ def h_directory(fi: int, si: int, recheck: bool) -> bool:
             return "different contents must get their own record"
         if bdb.check_directory(first).was_created() != b"URI:DIR2-CHK:first":
             return "first record lost"
+    return True
+
+
+PATH_C = "/backup/src/c.txt"
+
+
+def h_two_uploads(st: int, capa: int, capb: int, third: bool, a_size: int, a_mtime: int, b_size: int, b_mtime: int) -> bool:
+    """
+    pre: 0 <= st <= 2 and 0 <= capa <= 2 and 0 <= capb <= 2 and a_size >= 0 and b_size >= 0
+    post: _ == True
+    """
+    # one backup run uploads two files; the second cap may be one the database already knows (same content as the first file,
+    # or as an earlier upload): each path must afterwards be answered with ITS OWN cap
+    fid = 1
+    now = T0
+    db = _db_state(st != 0, 1, 2, 3, fid, st == 1, st == 1, now - 100, True)
+    second = PATH_C if third else PATH_B
+    _Env.stats = {PATH_A: (a_size, a_mtime, 30), PATH_B: (b_size, b_mtime, 40), PATH_C: (b_size, b_mtime, 40)}
+    _Env.now, _Env.draw = now, 0.25
+    bdb = BD.BackupDB_v2(SQLMOD, db)
+    ca, cb = pick(CAPS, capa), pick(CAPS, capb)
+    bdb.check_file(PATH_A).did_upload(ca)
+    bdb.check_file(second).did_upload(cb)
+    if db.dirty:
+        return "uploads not committed"
+    ra, rb = bdb.check_file(PATH_A), bdb.check_file(second)
+    if ra.was_uploaded() != ca:
+        return "first file answered with %r, uploaded as %r" % (ra.was_uploaded(), ca)
+    if rb.was_uploaded() != cb:
+        return "second file answered with %r, uploaded as %r" % (rb.was_uploaded(), cb)
+    caps = db.caps
+    if len(set(caps.values())) != len(caps):
+        return "a cap was registered twice"
+    lf = db.local_files
+    if caps.get(lf[PATH_A][3]) != ca or caps.get(lf[second][3]) != cb:
+        return "a path is linked to another file's cap"
+    if not third and PATH_C in lf:
+        return "unexpected record"
+    return True
+
+
+# short names / caps over a shared alphabet: the lookup key must be injective in the (name, cap) pairs, e.g. {"ab": "c"} vs {"a": "bc"}
+NAMES2 = ("a", "ab", "b", "a1:")
+CAPS2 = (b"", b"b", b"bc", b"c", b"a", b"1:b,", b"b,1:")
+
+
+def h_directory_pairs(n1: int, c1: int, n2: int, c2: int, extra: bool) -> bool:
+    """
+    pre: 0 <= n1 < len(NAMES2) and 0 <= n2 < len(NAMES2) and 0 <= c1 < len(CAPS2) and 0 <= c2 < len(CAPS2)
+    pre: B.get("names2") is None or (n1 in B["names2"] and n2 in B["names2"])
+    pre: B.get("caps2") is None or (c1 in B["caps2"] and c2 in B["caps2"])
+    post: _ == True
+    """
+    _Ideal.table = {}
+    first = {pick(NAMES2, n1): pick(CAPS2, c1)}
+    second = {pick(NAMES2, n2): pick(CAPS2, c2)}
+    if extra:
+        first["z"] = b"zz"
+        second["z"] = b"zz"
+    db = FakeDB()
+    _Env.now, _Env.draw = T0, 0.25
+    bdb = BD.BackupDB_v2(SQLMOD, db)
+    bdb.check_directory(first).did_create(b"URI:DIR2-CHK:first")
+    r2 = bdb.check_directory(second)
+    if first == second:
+        if r2.was_created() != b"URI:DIR2-CHK:first":
+            return "identical contents must find the recorded directory"
+    elif r2.was_created() is not False:
+        return "directory cap reused for different contents: %r vs %r" % (first, second)
     return True
